@@ -50,3 +50,37 @@ Qed.
 
 Theorem array_iteration_raises : exists e, coerce G RIter (coll_obj "Array" 0) (coll_obj "Array" 1) = Raises e.
 Proof. eexists. vm_compute. reflexivity. Qed.
+
+(* comparisons / membership against a plain Python value, both operand orders *)
+Definition plain_ok (t : sty) : bool :=
+  literal t ||
+  forallb (fun pv : string * value =>
+             forallb (fun r => forallb is_raises (coerce_plain G r (operand t 1 0) (snd pv)))
+                     [RChained; RMinMax; RMember]) plain_values.
+Lemma plain_table : forall1 plain_ok = true.  Proof. vm_compute. reflexivity. Qed.
+
+Definition coll_plain_ok (cls : string) : bool :=
+  forallb (fun pv : string * value =>
+             forallb (fun r => forallb is_raises (coerce_plain G r (coll_obj cls 0) (snd pv)))
+                     [RChained; RMinMax; RMember]) plain_values.
+Lemma coll_plain_table : forallb coll_plain_ok collection_classes = true.  Proof. vm_compute. reflexivity. Qed.
+
+Theorem scalars_vs_plain_values : forall t pname p r c, literal t = false ->
+  In (pname, p) plain_values -> In r [RChained; RMinMax; RMember] ->
+  In c (coerce_plain G r (operand t 1 0) p) -> exists e, c = Raises e.
+Proof.
+  intros t pname p r c Hl Hp Hr Hc. pose proof (forall1_spec _ plain_table t) as H. unfold plain_ok in H.
+  rewrite Hl in H. cbn [orb] in H. rewrite forallb_forall in H. specialize (H _ Hp). cbn [snd] in H.
+  rewrite forallb_forall in H. specialize (H _ Hr). rewrite forallb_forall in H. specialize (H _ Hc).
+  destruct c; simpl in H; try discriminate. eauto.
+Qed.
+
+Theorem collections_vs_plain_values : forall cls pname p r c, In cls collection_classes ->
+  In (pname, p) plain_values -> In r [RChained; RMinMax; RMember] ->
+  In c (coerce_plain G r (coll_obj cls 0) p) -> exists e, c = Raises e.
+Proof.
+  intros cls pname p r c Hcls Hp Hr Hc. pose proof coll_plain_table as H. rewrite forallb_forall in H.
+  specialize (H _ Hcls). unfold coll_plain_ok in H. rewrite forallb_forall in H. specialize (H _ Hp). cbn [snd] in H.
+  rewrite forallb_forall in H. specialize (H _ Hr). rewrite forallb_forall in H. specialize (H _ Hc).
+  destruct c; simpl in H; try discriminate. eauto.
+Qed.
